@@ -2589,7 +2589,8 @@ class TLSConnection(TLSRecordLayer):
             tacks = None
 
         # Prepare a TACK Extension if requested
-        if clientHello.tack:
+        # (without tackpy it's an unknown extension, ignored like any other)
+        if clientHello.tack and tackpyLoaded:
             tackExt = TackExtension.create(tacks, activationFlags)
         else:
             tackExt = None
